@@ -673,13 +673,15 @@ def build_lsm_wal(p, seed):
     disk = Resource("disk", capacity=2) if p["disk"] else None
     wal = None
     if p["wal"]:
-        pol = {"every": SyncEveryWrite(), "batch": SyncOnBatch(batch_size=4), "periodic": SyncPeriodic(0.005)}[p["wal"]]
+        pol = shared("wal_sync", lambda: {"every": SyncEveryWrite, "batch": lambda: SyncOnBatch(batch_size=4),
+                                          "periodic": lambda: SyncPeriodic(0.005)}[p["wal"]]())
         wal = WriteAheadLog("wal", sync_policy=pol, disk=disk, write_latency=0.0001, sync_latency=0.0005)
-    strat = {"size_tiered": SizeTieredCompaction(min_sstables=3), "leveled": LeveledCompaction(level_0_max=3, size_ratio=4,
-             base_size_keys=16), "fifo": FIFOCompaction(max_total_sstables=6)}[p["strategy"]]
+    strat = shared("compaction", lambda: {"size_tiered": lambda: SizeTieredCompaction(min_sstables=3),
+                                          "leveled": lambda: LeveledCompaction(level_0_max=3, size_ratio=4, base_size_keys=16),
+                                          "fifo": lambda: FIFOCompaction(max_total_sstables=6)}[p["strategy"]]())
     db = LSMTree("db", memtable_size=p["memtable"], compaction_strategy=strat, wal=wal, disk=disk,
                  sstable_read_latency=0.0004, sstable_write_latency=0.0008, max_levels=4)
-    keys = words(p["keys"], "user")
+    keys = shared("keys", lambda: words(p["keys"], "user"))
     clients = [KVClient(f"client-{i}", db, keys, p["ops"], think_s=0.003) for i in range(p["clients"])]
     ents = [db, *clients] + ([disk] if disk else []) + ([wal] if wal else [])
     sim = Simulation(entities=ents)
@@ -890,8 +892,8 @@ def build_sharded(p, seed):
     )
 
     shards = [KVStore(f"shard-{i}", read_latency=0.001 * (i + 1), write_latency=0.002) for i in range(p["shards"])]
-    strat = {"hash": HashSharding(), "range": RangeSharding(),
-             "consistent": ConsistentHashSharding(virtual_nodes=p["vnodes"], seed=sub(seed, 3))}[p["strategy"]]
+    strat = spec("sharding", lambda: {"hash": HashSharding, "range": RangeSharding,
+                                      "consistent": lambda: ConsistentHashSharding(virtual_nodes=p["vnodes"], seed=sub(seed, 3))}[p["strategy"]]())
     store = ShardedStore("sharded", shards, strat)
     keys = [f"{'abcdefghijklmnopqrstuvwxyz'[i % 26]}{w}" for i, w in enumerate(words(p["keys"], "u"))]
     clients = [KVClient(f"client-{i}", store, keys, p["ops"], mix=(0.5, 0.4, 0.1)) for i in range(p["clients"])]
@@ -1078,9 +1080,9 @@ def build_multi_leader(p, seed):
 
     net = Network(name="net")
     regions = ["east", "west", "north", "south"][: max(2, p["n"])]
-    mk = {"lww": LastWriterWins, "vcm": VectorClockMerge}[p["resolver"]]
+    resolver = shared("resolver", {"lww": LastWriterWins, "vcm": VectorClockMerge}[p["resolver"]])
     leaders = [LeaderNode(f"leader-{r}", store=KVStore(f"store-{r}", write_latency=0.001, read_latency=0.001), network=net,
-                          conflict_resolver=mk(), anti_entropy_interval=p["ae"]) for r in regions]
+                          conflict_resolver=resolver, anti_entropy_interval=p["ae"]) for r in regions]
     for ld in leaders:
         ld.add_peers([x for x in leaders if x is not ld])
     _mesh(net, leaders, p["link"])
@@ -1169,8 +1171,8 @@ def build_crdt_store(p, seed):
 # ===========================================================================
 
 def _gen_mq(rng):
-    return {"consumers": rng.choice([1, 2, 4]), "msgs": rng.choice([40, 90]), "reject_p": rng.choice([0.0, 0.15, 0.4]),
-            "silent_p": rng.choice([0.0, 0.1]), "max_redeliveries": rng.choice([1, 3]), "dlq": rng.random() < 0.7,
+    return {"consumers": rng.choice([1, 2, 4]), "msgs": rng.choice([40, 90]), "reject_p": rng.choice([0.15, 0.3, 0.4]),
+            "silent_p": rng.choice([0.0, 0.1]), "max_redeliveries": rng.choice([1, 3]), "dlq": rng.random() < 0.85,
             "capacity": rng.choice([None, 2, 8]), "latency": rng.choice([0.001, 0.004])}
 
 
@@ -1195,7 +1197,7 @@ def build_message_queue(p, seed):
                 red = q.schedule_redelivery(mid)           # consumer-side visibility timeout
                 return [red] if red is not None else None
             if r < p["silent_p"] + p["reject_p"]:
-                q.reject(mid, requeue=random.random() < 0.7)
+                q.reject(mid, requeue=random.random() < 0.5)
                 return [Event(time=self.now, event_type="poll", target=q)]
             q.acknowledge(mid)
         return None
@@ -1315,8 +1317,8 @@ def build_event_log_group(p, seed):
     )
     from happysimulator.components.streaming.event_log import EventLog, SizeRetention, TimeRetention
 
-    ret = {None: None, "size": SizeRetention(max_records=15), "time": TimeRetention(max_age_s=0.3)}[p["retention"]]
-    shard = HashSharding() if p["sharding"] == "hash" else ConsistentHashSharding(virtual_nodes=20, seed=sub(seed, 9))
+    ret = shared("retention", lambda: {None: None, "size": SizeRetention(max_records=15), "time": TimeRetention(max_age_s=0.3)}[p["retention"]])
+    shard = spec("sharding", lambda: HashSharding() if p["sharding"] == "hash" else ConsistentHashSharding(virtual_nodes=20, seed=sub(seed, 9)))
     log = EventLog("log", num_partitions=p["partitions"], sharding_strategy=shard, retention_policy=ret, append_latency=0.001,
                    read_latency=0.0005, retention_check_interval=0.2)
     class FirstTakesHalf:
@@ -1463,7 +1465,7 @@ def build_load_balancer(p, seed):
     from happysimulator.components.server.server import Server
     from happysimulator.distributions.exponential import ExponentialLatency
 
-    clients = words(p["clients"], "client")
+    clients = shared("client_ids", lambda: words(p["clients"], "client"))
 
     def ctx(time, count):
         return {"created_at": time, "request_id": count, "metadata": {"client_id": zipf_pick(clients, 0.5)}}
@@ -1545,7 +1547,7 @@ def _sketch_pipeline(p, seed, which):
     from happysimulator.load.providers.distributed_field import DistributedFieldProvider
     from happysimulator.sketching import BloomFilter, CountMinSketch, HyperLogLog, ReservoirSampler
 
-    customers = words(p["items"], "customer")
+    customers = shared("customers", lambda: words(p["items"], "customer"))
     kind = p.get("item_kind", "str")
     region_of = lambda c: ["us-east", "us-west", "eu", "ap"][len(c) % 4 if c is None else int(c.split(":")[1]) % 4]  # noqa: E731
 
@@ -2002,6 +2004,87 @@ def build_write_policy(p, seed):
     return sim, stats
 
 
+
+# ===========================================================================
+# 15. fault schedule: RandomPartition + the other fault specs on a network with traffic
+# ===========================================================================
+
+FAULT_KINDS = ["latency", "loss", "partition", "crash", "pause", "capacity"]
+
+
+def _gen_fault_schedule(rng):
+    return {"n": rng.choice([4, 5, 6]), "rate": rng.choice([120.0, 200.0]), "horizon": rng.choice([3.0, 4.0]),
+            "mtbf": rng.choice([0.3, 0.6]), "mttr": rng.choice([0.2, 0.4]), "link": rng.choice(LINKS),
+            "extra": sorted(rng.sample(FAULT_KINDS, 3))}
+
+
+@model("fault_schedule", "faults", _gen_fault_schedule)
+def build_fault_schedule(p, seed):
+    """Nodes on a full mesh exchange messages (each delivery takes a CPU slot from a shared Resource); a FaultSchedule holds a
+    seeded RandomPartition over all nodes plus three other fault specs.  The specs (frozen dataclasses) and the node-name
+    list are the declarative part of the scenario: with a spec bundle they are created once and reused by later builds."""
+    from happysimulator.components.network.network import Network
+    from happysimulator.components.resource import Resource
+    from happysimulator.faults import (
+        CrashNode, FaultSchedule, InjectLatency, InjectPacketLoss, NetworkPartition, PauseNode, RandomPartition, ReduceCapacity,
+    )
+
+    n, h = p["n"], p["horizon"]
+    names = shared("node_names", lambda: [f"n{i}" for i in range(n)])
+    cpu = Resource("cpu", capacity=4)
+
+    def on_msg(self, ev):
+        if ev.event_type != "msg":
+            return None
+        grant = yield cpu.acquire(1)
+        yield 0.002
+        grant.release()
+        self.received = getattr(self, "received", 0) + 1
+        return None
+
+    nodes = [Proc(nm, on_msg) for nm in list(names)]
+    net = Network(name="net")
+    _mesh(net, nodes, p["link"])
+
+    def send(self, ev):
+        a, b = random.sample(nodes, 2)
+        return [net.send(a, b, "msg", payload={"size": 300})]
+
+    sender = Proc("sender", send)
+    src = Source.poisson(rate=p["rate"], target=sender, event_type="Tick", name="traffic", stop_after=h * 0.9)
+
+    def mk_faults():
+        out = [RandomPartition(nodes=names, mtbf=p["mtbf"], mttr=p["mttr"], seed=sub(seed, 41))]
+        for k in p["extra"]:
+            if k == "latency":
+                out.append(InjectLatency(names[0], names[1], extra_ms=20.0, start=h * 0.2, end=h * 0.5))
+            elif k == "loss":
+                out.append(InjectPacketLoss(names[1], names[2], loss_rate=0.5, start=h * 0.1, end=h * 0.6))
+            elif k == "partition":
+                out.append(NetworkPartition(group_a=names[:1], group_b=names[2:], start=h * 0.3, end=h * 0.4))
+            elif k == "crash":
+                out.append(CrashNode(names[-1], at=h * 0.25, restart_at=h * 0.55))
+            elif k == "pause":
+                out.append(PauseNode(names[0], start=h * 0.6, end=h * 0.7))
+            elif k == "capacity":
+                out.append(ReduceCapacity("cpu", factor=0.5, start=h * 0.35, end=h * 0.65))
+        return out
+
+    faults = FaultSchedule()
+    for f in spec("faults", mk_faults):
+        faults.add(f)
+    sim = Simulation(sources=[src], entities=[net, cpu, sender, *nodes], fault_schedule=faults, end_time=at(h))
+
+    def stats(s):
+        s.add("faults", faults.stats)
+        s.add("received", [getattr(nd, "received", 0) for nd in nodes])
+        s.add("cpu", cpu.stats)
+        s.add("node_names", list(names))
+        _link_stats(s, net)
+        s.probe("random_partition_dropped_messages", net.events_dropped_partition > 0)
+    return sim, stats
+
+
 # ---------------------------------------------------------------------------
 # variant = the categorical parameter(s) that select the code path; part of the violation signature so that a recorded
 # finding about one policy/strategy does not hide another one in the same model
@@ -2042,5 +2125,6 @@ VARIANT = {
     "infra_random": lambda p: p["disk"],
     "ttl_cache_server": lambda p: p["clock"],
     "write_policy": lambda p: p["policy"],
+    "fault_schedule": lambda p: "+".join(p["extra"]),
 }
 assert set(VARIANT) == set(ZOO), set(VARIANT) ^ set(ZOO)
